@@ -48,7 +48,7 @@ def showMicros (l : List Rat) : String := showList (fun x => toString (micro x))
 def showTimeline (t : Timeline) : String :=
   let tv := if t.numeric then showMicros t.timevec else "-"
   let ab := match t.abstvec with | some a => showMicros a | none => "none"
-  s!"ok unit={t.unit.name} npts={t.npts} numeric={showBool t.numeric} dt={showRat t.dt.q} timevec={tv} yearvec={showMicros t.yearvec} datevec={showList Date.iso t.datevec} tvec={showMicros t.tvec} abstvec={ab} reslen={resultLen t}"
+  s!"ok unit={t.unit.name} npts={t.npts} numeric={showBool t.numeric} dt={showRat t.dt.q} timevec={tv} yearvec={showMicros t.yearvec} datevec={showList Date.iso t.datevec} tvec={showMicros t.tvec} abstvec={ab} plan={showMicros (loopPlacement t)} reslen={resultLen t}"
 
 def showRes (r : Except Err Timeline) : String :=
   match r with
